@@ -101,6 +101,26 @@ CLAIMED = {
             'Trusted base: torn-write model (a prefix of the last append survives); stdlib json standing in for simplejson.',
             '5/C20'),
 
+    'C08': ('property-based testing (Hypothesis) over every construct path, checked by an independent structural walker '
+            '(vlib/refwalk.py) plus a skeleton predicted from the input',
+            'All messages the agent can construct (C06/C07/C14 input spaces, SR-TE policy + tunnel encapsulation, PMSI, IPv6 '
+            'flowspec, EVPN type 5, and the send_* path of a simulated session) are walked: header length, every attribute / '
+            'TLV / capability / NLRI length sums exactly, flag bits match the RFC category, prefixes occupy ceil(len/8) octets; '
+            'construct exceptions are passes, None / malformed bytes are failures.',
+            'Trusted base: vlib/refwalk.py + refcodec (share no code with yabgp).', '5/C08'),
+    'C09': ('differential testing against an independent RFC encoder (refcodec) with legal-variant switches, Hypothesis-generated; '
+            'negative half with single-field corruptions',
+            'refcodec-encoded UPDATEs with extended length on short attributes, trailing bits in IPv4 prefixes, any attribute '
+            'order, several AS_PATH segments, AS4_PATH/AS4_AGGREGATOR, 2-/4-octet AS and add-path must decode to the encoded '
+            'values without error; listed malformations must set sub_error.',
+            'Trusted base: refcodec encoder.', '5/C09'),
+    'C15': ('metamorphic testing: exhaustive ordered pairs over per-kind element pools + Hypothesis k-tuples (decode(a||b) = '
+            'decode(a)+decode(b)), all attribute permutations up to 5 attributes, unknown-element insertion',
+            'Compositionality of every list decoder (prefix lists, labeled/VPN/EVPN/flowspec routes, communities, cluster '
+            'list, AS_PATH segments, OPEN capabilities, BGP-LS NLRIs/descriptors/attribute TLVs, Prefix-SID TLVs) and order '
+            'independence of attribute decoding.',
+            'Trusted base: refcodec element encoders; BGP-LS / Prefix-SID TLV bodies are those the decoder accepts alone.', '5/C15'),
+
 }
 
 NOT_YET = {}
